@@ -736,6 +736,8 @@ J gen_sessions(uint64_t seed, const J &ov)
 		if (act == "o") op.set("opt", std::string(1, "tsuvrliTSUVRLIxz"[r.range(0, 15)]));
 		if (act == "pkt" || act == "rawdata") { op.set("ser", (long long)++ser); op.set("len", (int)r.range(40, 200)); op.set("body", "rnd"); op.set("dst", "srv"); }
 		if (r.chance(0.6) && act != "v") op.set("uid", (int)(r.chance(0.8) ? r.range(0, std::max(0, cap - 1)) : r.range(0, 255)));
+		// version requests of another protocol version are answered VNAK and must leave every slot alone
+		if (act == "v" && r.chance(0.4)) { static const long long vs[] = {0x501, 0x503, 0, 0x0502ffffLL, 0xffffffffLL, 0x80000502LL}; op.set("version", vs[r.range(0, 5)]); }
 		ops.push(op);
 	}
 	// a session that speaks once a minute (iodine -I 60, or a minute of loss): its pings come 59.0-61.0 s apart, so some arrive in
